@@ -528,9 +528,11 @@ func (s *Server) handleNewConnection(ctx context.Context, rwc io.ReadWriteCloser
 func (s *Server) handleFileTransfer(ctx context.Context, rwc io.ReadWriter) error {
 	defer dontPanic(s.Logger)
 
-	// The first 16 bytes contain the file transfer.
+	// The first 16 bytes contain the file transfer; they may arrive in several reads.
 	var t transfer
-	if _, err := io.CopyN(&t, rwc, 16); err != nil {
+	buf := make([]byte, 16)
+	n, _ := io.ReadFull(rwc, buf)
+	if _, err := t.Write(buf[:n]); err != nil {
 		return fmt.Errorf("error reading file transfer: %w", err)
 	}
 
